@@ -892,6 +892,14 @@ func c05Replay(b []byte) (string, string, bool) {
 		}
 	} else {
 		if c.FileName != "" {
+			// the goal opens the file by its relative name: replay in a scratch directory of its own
+			if dir, err := os.MkdirTemp("", "c05replay"); err == nil {
+				if wd, err := os.Getwd(); err == nil {
+					defer os.Chdir(wd)
+				}
+				defer os.RemoveAll(dir)
+				os.Chdir(dir)
+			}
 			os.WriteFile(c.FileName, []byte(c.FileText), 0o644)
 		}
 		kind, detail = c05RunGoal(c05NewInterp(c.NilIO), &c)
